@@ -622,30 +622,43 @@ def flow_oracle(case, obs):
             groups.setdefault((name, k), []).append((idx, pos, did, frame, sd))
     for (name, k), items in groups.items():
         items.sort(key=lambda t: t[0])  # event order
-        deferred_then_immediate = False
-        seen_deferred = False
-        for idx, pos, did, frame, sd in items:
-            late = datum_pos.get(did, 10**9) > pos
-            if late:
-                seen_deferred = True
-            elif seen_deferred:
-                deferred_then_immediate = True
+        late = [datum_pos.get(did, 10**9) > pos for idx, pos, did, frame, sd in items]
         cur = 0
         increasing = True
         prev_frame = -1
+        ok = True
         for idx, pos, did, frame, sd in items:
             a, b = sd["indices"]["start"], sd["indices"]["stop"]
-            ok = a == cur and b >= a
             if frame <= prev_frame:
                 increasing = False
-            if ok and increasing and b != frame + 1:
+            if not (a == cur and b >= a) or (increasing and b != frame + 1):
                 ok = False
-            if not ok:
-                cls = "datum-of-earlier-event-arrives-after-later-datum-was-converted" if deferred_then_immediate else "datums-in-event-order"
-                bad.append((f"stream-datum-ranges:frame:{cls}", f"stream {name!r} key {k!r}: in event order the frame-based ranges are {[(s['indices']['start'], s['indices']['stop']) for *_, s in items]} for frames {[f for _, _, _, f, _ in items]} (must tile from 0 in event order)"))
                 break
             cur = b
             prev_frame = frame
+        if ok:
+            continue
+        observed = [(s["indices"]["start"], s["indices"]["stop"]) for *_, s in items]
+        # The one known defect (known_findings.json): the frame counter advances in CONVERSION order -- datums present at their
+        # event first (event order), datums that arrived late at stop (event order).  Only when the input has a late datum of an
+        # earlier event followed by an in-time datum of a later event, AND the observed ranges are exactly what that mechanism
+        # yields, the known signature is used; anything else is reported under its own signature.
+        deferred_then_immediate = any(late[i] and not late[j] for i in range(len(items)) for j in range(i + 1, len(items)))
+        conv = [i for i in range(len(items)) if not late[i]] + [i for i in range(len(items)) if late[i]]
+        carry, index, predicted = 0, 0, {}
+        for i in conv:
+            start = carry + index
+            index = items[i][3] + 1
+            stop = carry + index
+            if stop < start:
+                carry = start
+                stop = carry + index
+            predicted[i] = (start, stop)
+        if deferred_then_immediate and observed == [predicted[i] for i in range(len(items))]:
+            cls = "datum-of-earlier-event-arrives-after-later-datum-was-converted"
+        else:
+            cls = "ranges-do-not-tile-in-event-order"
+        bad.append((f"stream-datum-ranges:frame:{cls}", f"stream {name!r} key {k!r}: in event order the frame-based ranges are {observed} for frames {[f for _, _, _, f, _ in items]} (must tile from 0 in event order)"))
     return bad
 
 
